@@ -54,7 +54,7 @@ Qed.
 
 Lemma undo1_core j j' : core_eq j j' → core_eq (undo1 j) (undo1 j').
 Proof.
-  intros [H He]. unfold undo1. rewrite -He. destruct (j_entries j) as [|e rest]; [by split|].
+  intros [H He]. unfold undo1. rewrite -He. destruct (j_entries j) as [|e rest] eqn:E; [split; [exact H|cbv iota; congruence]|].
   pose proof (unmutate_sem e _ _ (revert_entry_sem e _ _ H)) as (?&?&?&?).
   split; [|done]. rs. done.
 Qed.
